@@ -138,6 +138,7 @@ def execute_history(hist):
                     dlv[c] = 0
 
         reset()
+        order_rnd = random.Random("order %r" % (hist["acts"],))
         for a in hist["acts"]:
             if task > len(pcfg["nc"]):
                 break
@@ -148,15 +149,23 @@ def execute_history(hist):
                 if a[1] in prod:
                     prod[a[1]] = min(n, prod[a[1]] + 1)
             elif a[0] == "D":
-                batch = []
+                per_client = []
                 cs = []
                 for c in sorted(prod):
                     if pcfg["grp"][c] == a[1] and prod[c] > dlv[c]:
                         new = samples[(task, c)][dlv[c] : prod[c]]
-                        batch.extend(new)
+                        per_client.append(list(new))
                         dlv[c] = prod[c]
                         pc = new[-1].percent_completed
                         cs.append({"c": c, "k": int(round(pc * n)) if pc is not None else 0})
+                # a worker's sample queue holds the samples of its clients interleaved in the order they were recorded: any
+                # interleaving that keeps each client's own order (which client's sample comes last must not matter)
+                batch = []
+                while per_client:
+                    q = order_rnd.choice(per_client)
+                    batch.append(q.pop(0))
+                    if not q:
+                        per_client.remove(q)
                 if batch:
                     d.update_samples(batch)
                     events.append({"k": "d", "task": task, "v": 0, "fin": False, "cs": cs})
@@ -175,7 +184,7 @@ def execute_history(hist):
                 d.metrics_store.close()
         except Exception:  # pylint: disable=broad-except
             pass
-    return {"pcfg": pcfg, "events": events}
+    return {"pcfg": pcfg, "events": events, "eq": not any(a[0] == "p" for a in hist["acts"])}
 
 
 # ---------------------------------------------------------------------------------------------------
@@ -195,6 +204,43 @@ def history_from_behaviour(path):
         a = v["pact"]
         acts.append({"ProduceRound": ["P"], "Report": ["R"], "JoinPoint": ["J"]}.get(a["name"]) or (["D", a["g"]] if a["name"] == "Deliver" else ["p", a["c"]]))
     return {"src": "tlc-simulate", "pcfg": pcfg, "cores": max(pcfg["grp"]) + 1, "acts": acts}
+
+
+def random_history_any_speed(rnd):
+    """Clients of DIFFERENT speed (one client records at a time, some clients much faster than others)."""
+    ntasks = rnd.choice([1, 2, 2])
+    cores = rnd.choice([1, 1, 2, 2, 3])
+    nc = [rnd.randint(2, 4) for _ in range(ntasks)]
+    m = max(nc)
+    per = -(-m // cores)
+    grp = [min(c // per, cores - 1) for c in range(m)]
+    cores = max(grp) + 1
+    n = rnd.choice([4, 8, 8, 16])
+    acts = []
+    for t in range(ntasks):
+        left = {c: n for c in range(nc[t])}
+        weight = {c: rnd.choice([1, 2, 5]) for c in left}
+        while left:
+            r = rnd.random()
+            if r < 0.5:
+                cl = sorted(left)
+                c = rnd.choices(cl, weights=[weight[x] for x in cl])[0]
+                acts.append(["p", c])
+                left[c] -= 1
+                if not left[c]:
+                    del left[c]
+            elif r < 0.75:
+                acts.append(["D", rnd.randrange(cores)])
+            else:
+                acts.append(["R"])
+        for _ in range(rnd.randint(0, 3)):
+            acts.append(rnd.choice([["R"], ["D", rnd.randrange(cores)]]))
+        for w in rnd.sample(range(cores), cores):
+            acts.append(["D", w])
+            if rnd.random() < 0.4:
+                acts.append(["R"])
+        acts.append(["J"])
+    return {"src": "random-any-speed", "pcfg": {"nc": nc, "n": n, "grp": grp}, "cores": cores, "acts": acts}
 
 
 def random_history(rnd):
@@ -299,10 +345,28 @@ def run_leg(ctx, out, seed_off=577):
     hists = [history_from_behaviour(fn) for fn in sorted(glob.glob(os.path.join(simdir, "b_*")))]
     shutil.rmtree(wd, ignore_errors=True)
     items = run_histories(hists, out, "dpsim")
+    # ---- Leg M + S2C for clients of different speed: every clause but the plain Monotone one
+    wd = tlc.prepare_workdir("ClientLoop", "dpspeed")
+    res = tlc.run_tlc(wd, "MC_DriverProgress", "DriverProgress.speed.cfg", workers=4, timeout=300, allow_violation=True)
+    out.add_tlc(res)
+    if not res.ok:
+        raise tlc.MachineryError("DriverProgress model (any speed) violates %s: %s" % (res.property_violated or res.invariant_violated, res.out[-1200:]))
+    out.note("leg M DriverProgress.speed.cfg (clients of any speed, ReportPropertiesAnySpeed): %d distinct states" % res.distinct)
+    simdir = os.path.join(wd, "sim")
+    os.makedirs(simdir)
+    res = tlc.run_tlc(wd, "MC_DriverProgress", "DriverProgress.simspeed.cfg", workers=1, simulate={"num": num, "file": os.path.join(simdir, "b")}, depth=160, seed=ctx.seed + seed_off + 1, timeout=300)
+    if not res.ok:
+        raise tlc.MachineryError("DriverProgress simulation (any speed) reported a violation: %s" % res.out[-1200:])
+    out.add_tlc(res)
+    hists = [history_from_behaviour(fn) for fn in sorted(glob.glob(os.path.join(simdir, "b_*")))]
+    shutil.rmtree(wd, ignore_errors=True)
+    items += run_histories(hists, out, "dpsimspeed")
     # ---- Leg C2S: seeded random histories
     rnd = random.Random(ctx.seed * 104729 + seed_off)
     rh = [random_history(rnd) for _ in range(150 if ctx.quick else 1200)]
     items += run_histories(rh, out, "dprnd")
+    rh = [random_history_any_speed(rnd) for _ in range(300 if ctx.quick else 2400)]
+    items += run_histories(rh, out, "dprndspeed")
     nrep = sum(1 for it in items for e in it["events"] if e["k"] == "r")
     staggered = 0
     for it in items:
